@@ -292,7 +292,7 @@ func TestVerifC15Dial(t *testing.T) {
 
 	nScen := 120
 	if VThorough() {
-		nScen = 1200
+		nScen = 3000
 	}
 	pols := []consts.DialerSelectionPolicy{
 		consts.DialerSelectionPolicy_MinLastLatency, consts.DialerSelectionPolicy_MinLastLatency,
